@@ -186,6 +186,19 @@ def check(chk):
     chk.judge('self.keyspace = keyspace' in s and s.index('wait_for_response') < s.index('self.keyspace = keyspace'), 'C20.confirm', sb,
               'set_keyspace_blocking records the keyspace after the server answered', 'blocking variant records the keyspace before confirmation')
 
+    # a pool that is still being created when the keyspace changes is brought up to date before it is published - and re-checked,
+    # because the session lock is released while the pool switches
+    chk.rule('C20.catchup', 'add_or_renew_pool repeats the keyspace catch-up of a new pool until it matches the session keyspace (a loop, under the session lock when tested)')
+    cl_ = chk.repo.mod('cassandra/cluster.py')
+    ar = cl_.func('Session.add_or_renew_pool.run_add_or_renew_pool') if cl_.has('Session.add_or_renew_pool.run_add_or_renew_pool') else cl_.func('Session.add_or_renew_pool')
+    tests_ = [n for n in ast.walk(ar) if isinstance(n, (ast.While, ast.If)) and 'new_pool._keyspace' in src(n.test) and 'self.keyspace' in src(n.test)]
+    if not tests_:
+        raise AnalysisError('add_or_renew_pool: keyspace catch-up test not found')
+    chk.judge(any(isinstance(n, ast.While) for n in tests_), 'C20.catchup', tests_[0], 'catch-up is `while new_pool._keyspace != self.keyspace`',
+              'the catch-up runs once (`if`): a second keyspace switch that completes while the lock is released for the first catch-up never reaches the new pool, '
+              'which is then published one keyspace behind although both switches reported success')
+
+
 
 def mod_of(node):
     return node._mod
